@@ -24,10 +24,15 @@ from vf.ref import response as rs
 
 
 def target_of(cid, idx, req):
-    return "/r?c=%d&i=%d&n=%d&k=%s&w=%d" % (cid, idx, req.get("n", 10), req.get("k", "cl"), req.get("w", 0))
+    t = "/r?c=%d&i=%d&n=%d&k=%s&w=%d" % (cid, idx, req.get("n", 10), req.get("k", "cl"), req.get("w", 0))
+    if req.get("gate"):
+        t += "&g=1"
+    return t
 
 
 def request_bytes(cid, idx, req):
+    if "raw" in req:
+        return req["raw"].encode("latin-1"), b""
     m = req.get("m", "GET")
     v = req.get("v", "1.1")
     lines = ["%s %s HTTP/%s" % (m, target_of(cid, idx, req), v), "Host: h"]
@@ -65,6 +70,8 @@ def closes_connection(req):
         return True
     if k in ("nocl", "raise0", "raise1", "short"):
         return True
+    if "raw" in req:
+        return bool(req.get("refused", True))
     return False
 
 
@@ -93,6 +100,13 @@ def make_app(world, log, hooks=None):
             h = hooks.get("on_enter")
             if h:
                 h(cid, idx, environ)
+            if q.get("g") == "1":
+                # gated request: runs on only once the client has opened the gate
+                # (i.e. after it has sent what follows this request)
+                log.add(world, cid, idx, "gate-wait")
+                world.gates[("waiting", cid)] = True
+                world.net.changed()
+                world.wait_until(lambda: world.gates.get(cid))
             payload = apps.ident_payload(cid, idx, n)
             hdrs = [("Content-Type", "application/octet-stream"), ("X-Req", "%d-%d" % (cid, idx))]
             if k == "raise0":
@@ -254,7 +268,35 @@ def client_actor(world, cid_hint, spec, result):
         reading_wait(lambda cl: nfinal(cl)[0] >= sent and False) if spec.get("linger") else None
     else:
         data = b"".join(b"".join(request_bytes(cid, i, r)) for i, r in enumerate(reqs))
-        c.send(data, spec.get("pieces"))
+        plan = spec.get("plan")
+        if plan:
+            # [[offset, "recv", nbytes] | [offset, "sleep", dt] | [offset, "yield", k]]: send up to
+            # offset, then wait for that condition before sending on
+            pos = 0
+            for off, kind, arg in plan:
+                off = min(off, len(data))
+                if off > pos:
+                    c.send(data[pos:off])
+                    pos = off
+                if kind == "recv":
+                    c.wait(lambda cl, arg=arg: len(cl.conn.client_received) >= arg)
+                elif kind == "sleep":
+                    world.sleep(arg)
+                elif kind == "gate":
+                    world.gates[cid] = True
+                    world.net.changed()
+                elif kind == "app-waiting":
+                    # until the gated application is blocked (its request was read and dispatched)
+                    world.wait_until(lambda: world.gates.get(("waiting", cid)) or c.conn.server_closed)
+                else:
+                    for _ in range(int(arg)):
+                        world.sched.yield_point(("client", "plan"))
+            if pos < len(data) and not c.conn.server_closed:
+                c.send(data[pos:])
+            world.gates[cid] = True
+            world.net.changed()
+        else:
+            c.send(data, spec.get("pieces"))
         sent = len(reqs)
         result["sent"] = sent
         # how many responses can be expected: up to and including the first closing one
